@@ -879,7 +879,9 @@ def synth_fields(tier):
     return {'rms': st.sampled_from(RMS_VALUES), 'rmsform': st.sampled_from(SCALARS),
             'k': st.integers(0, 2 ** 32 - 1), 'model': st.sampled_from(['abc', 'abc', 'ab', 'user-powerlaw', 'partial-ab']),
             'a': st.sampled_from([1.0, 1e4, 1e-2, 1e-30, 1e30]), 'b': st.sampled_from([0.01, 0.1, 1.0, 2.5]), 'c': st.sampled_from([1.0, 2.0, 3.3, 0.0, 8.0]),
-            'mask': st.sampled_from(['none', 'circle-bool', 'circle-int', 'random-bool', 'half-float', 'circle-uint8', 'random-f32', 'single-bool', 'row-bool']),
+            'mask': st.sampled_from(['none', 'circle-bool', 'circle-int', 'random-bool', 'half-float', 'circle-uint8', 'random-f32', 'single-bool', 'row-bool',
+                                     # "keep" is any non-zero value (the code excludes mask == 0): 0/255 image masks, label maps, grey levels, negative values
+                                     'circle-uint8-255', 'random-labels', 'random-grey', 'half-negative']),
             'mseed': U.seeds,
             'mlayout': U.layouts, 'twice': st.sampled_from([False, False, True]),
             'route': st.sampled_from(['function', 'function', 'render_from_psd'])}
@@ -915,8 +917,17 @@ def check_synth(case, ctx):
             m = xx >= n // 2
         if not m.any():
             m[n // 2, n // 2] = True
-        mask = {'circle-bool': m, 'random-bool': m, 'circle-int': m.astype(int), 'half-float': m.astype(float),
-                'circle-uint8': m.astype(np.uint8), 'random-f32': m.astype(np.float32), 'single-bool': m, 'row-bool': m}[mk]
+        if mk == 'circle-uint8-255':
+            mask = m.astype(np.uint8) * np.uint8(255)
+        elif mk == 'random-labels':
+            mask = m.astype(np.int64) * U.rng_of(case['mseed'], 6).integers(1, 4, size=(n, n))
+        elif mk == 'random-grey':
+            mask = m.astype(float) * U.rng_of(case['mseed'], 6).uniform(0.05, 1.0, size=(n, n))
+        elif mk == 'half-negative':
+            mask = m.astype(float) * -1.0
+        else:
+            mask = {'circle-bool': m, 'random-bool': m, 'circle-int': m.astype(int), 'half-float': m.astype(float),
+                    'circle-uint8': m.astype(np.uint8), 'random-f32': m.astype(np.float32), 'single-bool': m, 'row-bool': m}[mk]
         mask = U.relayout(mask, mlayout)
     keep_mask = None if mask is None else mask.copy()
     if case['model'] == 'abc':
